@@ -2,6 +2,7 @@ package c19
 
 import (
 	"bytes"
+	"fmt"
 	"sort"
 
 	"pgregory.net/rapid"
@@ -432,6 +433,29 @@ func genCase(t *rapid.T) Case {
 			md.apply(&c, &r)
 		}
 		c.Reqs = append(c.Reqs, r)
+	}
+	if rapid.IntRange(0, 2).Draw(t, "topo") == 0 {
+		tp := &Topo{
+			Role:     rapid.SampledFrom([]string{"primary", "primary", "replica", "standalone", ""}).Draw(t, "role"),
+			LastSeq:  rapid.SampledFrom([]uint64{0, 1, 7, 42, 1 << 40}).Draw(t, "lastseq"),
+			ReadOnly: rapid.Bool().Draw(t, "readonly"),
+			NilList:  rapid.Bool().Draw(t, "nillist"),
+		}
+		if tp.Role == "replica" || rapid.IntRange(0, 3).Draw(t, "hasprimaryaddr") == 0 {
+			tp.Primary = rapid.SampledFrom([]string{"10.0.0.1:50052", "primary.example:1", "[::1]:9"}).Draw(t, "primaryaddr")
+		}
+		for i, n := 0, rapid.SampledFrom([]int{0, 0, 0, 1, 2, 5}).Draw(t, "nreplicas"); i < n; i++ {
+			tp.Replicas = append(tp.Replicas, TopoReplica{
+				Address:   fmt.Sprintf("10.0.1.%d:50053", i+1),
+				LastSeq:   rapid.SampledFrom([]uint64{0, 3, 41, 42}).Draw(t, "rseq"),
+				Available: rapid.Bool().Draw(t, "ravail"),
+				Region:    rapid.SampledFrom([]string{"", "eu-1"}).Draw(t, "rregion"),
+				MetaKey:   rapid.SampledFrom([]string{"", "rack"}).Draw(t, "rmeta"),
+			})
+		}
+		c.Topo = tp
+		// make sure the sequence asks
+		c.Reqs = append(c.Reqs, Req{Op: "nodeinfo", Direct: rapid.Bool().Draw(t, "topodirect")})
 	}
 	if rapid.IntRange(0, 7).Draw(t, "closeprobe") == 0 {
 		if ev.Flag(flagErrMapping) {
